@@ -980,7 +980,7 @@ func Run(d *fw.Driver, res *fw.Result, seed int64, thorough bool) error {
 		return err
 	}
 	base += 1000
-	if err := StaleAnswerQueued(res, seed, base); err != nil {
+	if err := StaleAnswerQueued(d, res, seed, base); err != nil {
 		return err
 	}
 	if err := FormatterOrder(res); err != nil {
